@@ -83,6 +83,32 @@ DESC = {
             "two runs more than i64::MAX apart: classified gapless, so iter(mode=range) on an enum with holes is accepted"),
  "C18_r2": ("C18", "src/parser/values.rs: `negate` hoisted out of the per-variant block and never reset",
             "a negative explicit discriminant followed later by a positive explicit one: {A=-3, B=1, C=2} is parsed as {-3,-1,-2} but the permutation {B=1, C=2, A=-3} correctly"),
+ "r3A_m1": ("C07", "src/feature/range_fn.rs (gapless next_and_back): indices lose `as usize`, the length `(end_idx - start_idx + 1) as usize` is computed in the 8-bit companion type",
+            "mode next_and_back, gapless, u8/i8 with exactly 256 variants, range(MIN, MAX) exactly: overflow panic (dev) / len 0 (release)"),
+ "r3A_m2": ("C06", "src/parser/values.rs: `last = last.max(i)` (fourth independent rediscovery)",
+            "an explicit value below the running maximum directly followed by an implicit variant"),
+ "r3A_m3": ("C06", "src/feature/iter/next_and_back.rs: adds `fn last(self) { self.bwd }`, ignoring len",
+            "mode next_and_back, last() on an iterator that is empty but was not emptied purely from the back (drained by next/nth, met in the middle, or range(a,b) with a > b)"),
+ "r3A_m4": ("C07", "src/feature/range_fn.rs (holes, table arm): start index `start_repr - *r.0.start()` instead of `start_repr - r.1`",
+            "enum with holes, iter mode table, start variant in the second or a later run"),
+ "r3B_m1": ("C04", "src/feature/from_str_trait.rs (table, holes): early-return loop replaced by `.zip().filter().map().last()`",
+            "FromStr trait (not the function), table mode, enum with holes, two variants sharing a name: the LAST duplicate wins"),
+ "r3B_m2": ("C03", "src/parser/values.rs: `name = name.to_lowercase()` inside `if sorted.name`",
+            "the enum carries #[enum_tools(sorted(name))] and some name has an upper-case character: as_str / names are lower-cased"),
+ "r3B_m3": ("C08", "src/feature/iter/mod.rs: last() = `nth(len - 1)`",
+            "last() on a fully drained iterator (names(), and iter() in range/table/table_inline mode) with overflow checks on: panics instead of None"),
+ "r3B_m4": ("C04", "src/feature/from_str_fn.rs (match): a HashSet skips arms 'whose name already has an arm' but is filled with identifiers",
+            "from_str function in match mode; a variant whose rename equals the identifier of a lower-valued variant that is itself renamed"),
+ "r3C_m1": ("C01", "src/parser/mod.rs: gapless decided by `(MAX - MIN) as u16 == count - 1`, the correctly computed runs are discarded",
+            "an enum with holes and (MAX-MIN) mod 65536 == count-1, e.g. #[repr(u32)] {0, 65537}: try_from(1) transmutes"),
+ "r3C_m2": ("C05", "src/feature/next_back_fn.rs (gapless): wrapping test `MIN <= self-1 <= MAX` instead of `self == MIN`",
+            "a gapless enum covering the whole repr type (256-variant u8 or i8): next_back(MIN) is Some(MAX)"),
+ "r3C_m3": ("C10", "src/feature/range_fn.rs: the gapless index helper builds a hard-coded `__MIN` ident instead of names.ident_min",
+            "gapless enum, range, iter with explicit mode table/next_and_back and MIN enabled by the user: E0599"),
+ "r3C_m4": ("C13", "src/feature/iter/range.rs: hole test rewritten as an adjacency check using chunks(2) instead of windows(2)",
+            "iter(mode=range) on an enum whose holes all fall after an even number of variants, e.g. {0,1,3,4}: accepted"),
+ "r3C_m5": ("C18", "src/feature/as_str_fn.rs (table, holes): `as #repr_unsigned` dropped (same slip as C03_a)",
+            "signed 8/16-bit repr, with holes, as_str table, variant at position >= 128 / 32768"),
 }
 
 HERE = os.path.dirname(os.path.abspath(__file__))
